@@ -1,7 +1,7 @@
 """Rules added after the third round of independent mutations (DESIGN.md 12.8)."""
 from core import callee_path, last_field, rv_operands
 from cond import sources, branch_sources, controlling_sources, expr_key
-from rules.base import Result, where, line_of, param_of_type
+from rules.base import Result, where, line_of, param_of_type, param_named
 from rules.accounting import deep_root, operand_deep_root
 
 
@@ -1293,12 +1293,26 @@ def r_ctrl_geometry(F, V):
             n += 1
             nc, en = f.get("next_ctrl", ""), f.get("end", "")
             # the parameters are identified by their (pairwise distinct) types, not by position
-            pc, pd, pl = param_of_type(b, "*const u8"), param_of_type(b, "raw::Bucket<"), param_of_type(b, "usize")
-            if None in (pc, pd, pl):
-                R.undec("raw::RawIterRange::new: cannot identify the ctrl / data / len parameters by type (%s)" % [b.locals[q]["ty"]["s"] for q in range(1, b.arg_count + 1)])
+            pc = param_of_type(b, "*const u8") or param_named(b, "ctrl", "*const u8")
+            pd, pl = param_of_type(b, "raw::Bucket<"), param_of_type(b, "usize")
+            pe = param_named(b, "end", "*const u8") if pl is None else None
+            if pc is None or pd is None or (pl is None and pe is None):
+                R.undec("raw::RawIterRange::new: cannot identify the ctrl / data / len (or end) parameters (%s)" % [(b.locals[q].get("name"), b.locals[q]["ty"]["s"]) for q in range(1, b.arg_count + 1)])
                 return R
             checks.append(("RawIterRange::new: next_ctrl = ctrl + Group::WIDTH", nc.endswith("::add(a%d,c:%d:usize)" % (pc, W)), nc[-60:], b, "the first group is loaded from ctrl, the next one lies exactly one group further"))
-            checks.append(("RawIterRange::new: end = ctrl + len", en.endswith("::add(a%d,a%d)" % (pc, pl)), en[-60:], b, "the range ends len control bytes after its start"))
+            if pl is not None:
+                checks.append(("RawIterRange::new: end = ctrl + len", en.endswith("::add(a%d,a%d)" % (pc, pl)), en[-60:], b, "the range ends len control bytes after its start"))
+            else:
+                # the end pointer is handed in: it is stored as given, and every caller derives it from a control pointer of the same
+                # table (the start plus a count, or the end of the range being split)
+                checks.append(("RawIterRange::new: end = the end pointer argument", en == "a%d" % pe, en[-60:], b, "the range ends where the caller says"))
+                for cpth, cb_ in F.bodies.items():
+                    for ci, ct in cb_.calls():
+                        if callee_path(ct) == "raw::RawIterRange::new" and len(ct["args"]) >= max(pc, pe):
+                            ke, kc = expr_key(cb_, ct["args"][pe - 1]), expr_key(cb_, ct["args"][pc - 1])
+                            base = kc.split("::add(")[-1].split(",")[0] if "::add(" in kc else kc
+                            okc = ("::add(%s," % kc) in ke or ke.endswith(".end") or ("::add(%s," % base) in ke or (base and ke.startswith(base))
+                            checks.append(("RawIterRange::new call in %s: end derives from the same control pointer as ctrl" % cpth.split("::")[-1], bool(okc), "%s / %s" % (kc[-40:], ke[-40:]), cb_, "start and end of the walked range must belong to one control array"))
             checks.append(("RawIterRange::new: data = the data pointer argument", f.get("data") == "a%d" % pd, f.get("data", "")[:40], b, "bit i of the first group belongs to data.next_n(i)"))
     b = F.bodies.get("raw::FullBucketsIndices::next_impl")
     if b is not None:
@@ -1321,4 +1335,121 @@ def r_ctrl_geometry(F, V):
         else:
             R.violation("geometry|" + name.split(":")[0].split(" =")[0], body, "control-array geometry relation violated: %s (%s): %s" % (name, detail, why))
     R.floor("geometry sites judged", n, 3)
+    return R
+
+
+# --------------------------------------------------------------------- R-GUARD-STALE-COUNT
+
+def _reads_items(body):
+    """blocks of `body` whose behaviour depends on an element count: the field `items` of a RawTableInner is read (other than
+    to initialise the `items` field of a RawIter being constructed - that count only matters if the RawIter's own
+    count-bounded methods are used, which read RawIter.items and are found on their own), or RawIter.items is read"""
+    out = []
+
+    def has(o):
+        if isinstance(o, dict):
+            if o.get("k") in ("copy", "move") and isinstance(o.get("p"), dict):
+                lf = last_field(o["p"])
+                if lf and lf["name"] == "items" and ((lf.get("adt") or "").endswith("RawTableInner") or (lf.get("adt") or "") == "raw::RawIter"):
+                    return True
+            return any(has(v) for k, v in o.items() if k not in ("sp", "p") or o.get("k") in ("copy", "move", "ref"))
+        if isinstance(o, list):
+            return any(has(v) for v in o)
+        return False
+
+    def feeds_rawiter_only(l):
+        uses = [(i, k, s) for i, k, s in body.stmts() if s["k"] == "assign" and any(o.get("k") in ("copy", "move") and o["p"]["l"] == l for o in rv_operands(s["rv"]))]
+        return bool(uses) and all(s["rv"]["k"] == "aggregate" and s["rv"].get("adt") == "raw::RawIter" for i, k, s in uses) \
+            and not any(a.get("k") in ("copy", "move") and a["p"]["l"] == l for _, t in body.calls() for a in t["args"])
+    for i, k, s in body.stmts():
+        if s["k"] == "assign" and has(s["rv"]):
+            if s["rv"]["k"] == "aggregate" and s["rv"].get("adt") == "raw::RawIter":
+                continue
+            if not s["p"].get("proj") and s["rv"]["k"] == "use" and feeds_rawiter_only(s["p"]["l"]):
+                continue
+            out.append(i)
+    for i, t in body.calls():
+        if has(t["args"]):
+            out.append(i)
+    return out
+
+
+def _adaptor_targets(F, body):
+    """bodies of the Iterator-family impls of crate types that appear inside the receiver type of a call to a core iterator
+    method (`<Take<RawIter<T>> as Iterator>::next` runs `<RawIter<T> as Iterator>::next`)"""
+    out = []
+
+    def adts(ty, acc):
+        if isinstance(ty, dict):
+            if ty.get("k") == "adt" and ty.get("path") in F.adts:
+                acc.add(ty["path"])
+            for a in ty.get("args", []) or []:
+                adts(a, acc)
+            for key in ("inner", "elem"):
+                if isinstance(ty.get(key), dict):
+                    adts(ty[key], acc)
+    for i, t in body.calls():
+        f = t["f"]
+        if f["k"] != "fn" or f.get("local") or not (f.get("trait") or f.get("path", "")).startswith("core::iter::"):
+            continue
+        acc = set()
+        adts(f.get("self_ty"), acc)
+        for a in t["args"][:1]:
+            if a["k"] in ("copy", "move"):
+                adts(body.locals[a["p"]["l"]]["ty"], acc)
+        for X in acc:
+            for im in F.impls:
+                if (im.get("trait") or "").startswith("core::iter::") and im["self_ty"].get("k") == "adt" and im["self_ty"]["path"] == X:
+                    for it in im["items"]:
+                        if it["kind"] == "fn" and it["path"] in F.bodies and it["path"] not in out:
+                            out.append(it["path"])
+    return out
+
+
+def r_guard_stale_count(F, V):
+    """An unwind guard runs at a point the creating function does not control. If that function brings the table's element
+    count up to date only *after* the work the guard protects (clone_from_impl stores `items` once every element is
+    cloned), the guard's clean-up must not depend on the count - neither directly nor through an iterator that is
+    bounded by it (`RawTable::iter()` stops after `items` elements): it would skip elements that are already there."""
+    from rules.accounting import guard_defs, guard_disarms
+    R = Result("R-GUARD-STALE-COUNT", F.cfg)
+    n = 0
+    for p, b in F.bodies.items():
+        if not p.startswith("raw::") or "{closure" in p:
+            continue
+        for g in guard_defs(b):
+            cp = g["closure"]
+            if not cp or cp not in F.bodies:
+                continue
+            n += 1
+            key = "%s|guard@%s" % (p, cp.rsplit("::", 1)[-1])
+            # stores of `items` in the creating body after the guard was armed
+            after = set()
+            # (also after it is defused: a count that is stored once the protected work has succeeded was not yet valid
+            # at any point where the guard could have run)
+            for sx in b.nsucc[g["bb"]]:
+                after |= b.reachable_from(sx)
+            late = [i for i, k, s in b.stmts() if i in after and s["k"] == "assign" and (last_field(s["p"]) or {}).get("name") == "items"
+                    and ((last_field(s["p"]) or {}).get("adt") or "").endswith("RawTableInner")]
+            if not late:
+                R.inst(key, "the creating function does not store `items` after arming the guard", "ok", False, where(b, bb=g["bb"]))
+                continue
+            readers = []
+            scope = [cp] + sorted(x for x in F.reachable_fns(cp) if x.startswith("raw::") and x in F.bodies)
+            # iterator adaptors of core (`.take(n)`, `.by_ref()`, ..) call back into the Iterator impl of the crate type they wrap
+            for q in list(scope):
+                for x in _adaptor_targets(F, F.bodies[q]):
+                    if x not in scope:
+                        scope.append(x)
+                        scope.extend(y for y in sorted(F.reachable_fns(x)) if y.startswith("raw::") and y in F.bodies and y not in scope)
+            for q in scope:
+                if _reads_items(F.bodies[q]):
+                    readers.append(q)
+            if readers:
+                R.violation(key, b, "the unwind guard's clean-up depends on the table's element count (read in %s) although %s stores `items` only later, while the guard is armed: on unwinding the count is stale, so the clean-up "
+                            "(e.g. an iterator bounded by `items`) skips elements that were already written - they are leaked, or left behind marked as present" % (readers[0], p), line=line_of(b, bb=g["bb"]))
+                R.inst(key, "guard depends on a count that is stored later", "violation", True, where(b, bb=g["bb"]))
+            else:
+                R.inst(key, "`items` is stored after the guard is armed, and the guard's clean-up does not read it", "ok", True, where(b, bb=g["bb"]))
+    R.floor("scope guards in the raw module", n, 3)
     return R
